@@ -1,1 +1,2 @@
 import PyhfGen.Interp
+import PyhfGen.Infer
